@@ -109,7 +109,26 @@ def strip_coq_comments(s):
     return "".join(out)
 
 
+def gen_coqproject():
+    """_CoqProject lists every .v file under coq/ (except Extract/, which is compiled by build_model)."""
+    files = []
+    for root, dirs, names in os.walk(COQ):
+        dirs.sort()
+        rel = os.path.relpath(root, COQ)
+        if rel.startswith("Extract") or rel.startswith("."):
+            continue
+        for n in sorted(names):
+            if n.endswith(".v") and not n.startswith("."):
+                files.append(os.path.normpath(os.path.join(rel, n)))
+    txt = "-Q . SL\n-arg -w -arg -notation-overridden,-deprecated-hint-without-locality,-deprecated-syntactic-definition,-deprecated\n" + "\n".join(files) + "\n"
+    cp = os.path.join(COQ, "_CoqProject")
+    if not os.path.exists(cp) or open(cp).read() != txt:
+        with open(cp, "w") as f:
+            f.write(txt)
+
+
 def coq_makefile():
+    gen_coqproject()
     mk = os.path.join(COQ, "Makefile")
     cp = os.path.join(COQ, "_CoqProject")
     if not os.path.exists(mk) or os.path.getmtime(mk) < os.path.getmtime(cp):
